@@ -7,7 +7,7 @@ R19.3 the packed field type is selected only by target features (cfg) in one pla
 """
 import re
 from . import flow
-from .facts import walk, kids, parse_path, callee
+from .facts import walk, kids, parse_path, callee, pat_binds
 
 ITER = {'iter', 'iter_mut', 'keys', 'values', 'values_mut', 'into_iter', 'into_keys', 'into_values', 'drain', 'retain',
         'union', 'intersection', 'difference', 'symmetric_difference', 'extract_if', 'par_iter'}
@@ -224,6 +224,32 @@ def run(F, ck, tier):
             ck.ob('R19.2', 'rayon:%s:%s' % (meth, fnq), False, 'schedule-dependent or unreviewed rayon combinator %s in %s: results may depend on thread interleaving' % (meth, d), c['s'])
     ck.floor('R19.2', 'calls into rayon / maybe_rayon', nray, 60)
     ck.ob('R19.2', 'rayon:allowed-set', True, 'all other rayon calls use order-preserving combinators (%d calls)' % nray)
+    # ---------------------------------------------------------------- R19.8 packed oracle reads = WIDTH scalar reads
+    ck.rule('R19.8', 'get_lde_values_packed(index_start, step) is WIDTH calls of get_lde_values(index_start + i, step): the packed read of a SIMD build addresses the same rows as the scalar read (both oracle types, same arguments)')
+    packed = [f for f in F.fns.values() if f.crate == 'plonky2' and f.name == 'get_lde_values_packed' and f.body is not None]
+    sigs8 = {}
+    for f in sorted(packed, key=lambda f: f.qual):
+        pn = [b['n'] for p in f.params for b in pat_binds(p)]
+        calls = [x for x in walk(f.body) if x.get('k') == 'MCall' and x.get('n') == 'get_lde_values']
+        cal = F.fns.get(calls[0].get('d')) if len(calls) == 1 else None
+        cpn = [b['n'] for p in cal.params for b in pat_binds(p)][1:] if cal is not None else []
+        if len(calls) != 1 or 'index' not in cpn or 'step' not in cpn or len(calls[0].get('a', [])) != len(cpn):
+            ck.ob('R19.8', 'packed-read:%s' % f.qual, False, 'ANCHOR-MISSING: %s no longer makes exactly one get_lde_values(.., index, step, ..) call' % f.qual, '%s:%d' % (f.file, f.line))
+            continue
+        a0, a1 = calls[0]['a'][cpn.index('index')], calls[0]['a'][cpn.index('step')]
+        while a1.get('k') in ('Paren', 'Cast'):
+            a1 = a1['e']
+        step_ok = a1.get('k') == 'Local' and a1.get('n') in pn
+        idx_locals = sorted({y.get('n') for y in walk(a0) if y.get('k') == 'Local'})
+        idx_ok = a0.get('k') == 'Bin' and a0.get('op') == 'Add' and len(idx_locals) == 2 and len([n for n in idx_locals if n in pn]) == 1 and \
+            (not step_ok or a1.get('n') not in idx_locals) and not any(y.get('k') == 'Bin' and y.get('op') != 'Add' for y in walk(a0))
+        okp = step_ok and idx_ok
+        sigs8[f.qual] = (step_ok, idx_ok)
+        ck.ob('R19.8', 'packed-read:%s' % f.qual, okp, 'reads rows index_start + i with the caller\'s step' if okp else
+              'PACKED READ ADDRESSES OTHER ROWS: %s calls get_lde_values(%s, %s) instead of (index_start + i, step): with a packing width above one and step > 1 the lanes of a batch are '
+              'consecutive LDE points instead of points `step` apart, so a SIMD build evaluates the quotient on other rows than the scalar build' % (
+                  f.qual, '+'.join(idx_locals) if idx_ok else 'another index expression', a1.get('n', 'another step')), calls[0].get('s'))
+    ck.floor('R19.8', 'get_lde_values_packed implementations', len(packed), 2)
     # ---------------------------------------------------------------- R19.7 the oracle behind the circuit key is never salted
     ck.rule('R19.7', 'the constants/sigmas commitment, whose cap is the circuit key, is built without blinding (salts are fresh randomness: a salted key differs between two builds of the same circuit)')
     tb = F.one('CircuitBuilder::try_build_with_options', crate='plonky2')
